@@ -60,7 +60,9 @@ def vocab_from_spec(spec):
         srcs = par_sources.get(p["name"], [])
         w = bool(srcs) and not p.get("timed") and all(kinds[s] == "ord" for s in srcs) and p.get("fmt") in ("rate", "probability", "number", "duration")
         add(cls, p["name"], w)
-    nested = sorted([x for x in spec.get("characs", []) if not x.get("den")], key=lambda x: -len(x["inc"]))  # largest first (sheet order is free)
+    in_cascade = {n for c in spec.get("cascades", []) for st_ in c["stages"] for n in st_[1]}
+    # the nested family is what the framework's explicit cascade is made of (other characteristics, e.g. the one that initialises a junction indirectly, are not part of it)
+    nested = sorted([x for x in spec.get("characs", []) if not x.get("den") and (x["name"] in in_cascade or not in_cascade)], key=lambda x: -len(x["inc"]))  # largest first (sheet order is free)
     years = sorted({t for bypop in spec["data"]["q"].values() for d in bypop.values() for t in d.get("t", [])} | set(spec["data"]["years"]))
     return {
         "pops": list(spec["pops"]),
